@@ -70,6 +70,8 @@ def s_case(draw):
 
 def t_main(ctx):
     ctx.hyp(s_case(), ctx.n(150, 2500))
+    if ctx.shard == 0:
+        ctx.exhaustive.append('all 256 hash-type bytes for every generated (transaction, script code, index, amount) case')
 
 
 TASKS = [('all256', (t_main, 16))]
